@@ -80,6 +80,7 @@ def handler(payload):
         return o.get_key_blobs()
 
     def iee_obj(blobs, img=None, base=0, kek1=bytes(32), kek2=bytes(range(32)), kaddr=0, family="mimxrt1176"):
+        family = family or "mimxrt1176"
         binaries = None
         if img is not None:
             binaries = BinaryImage("enc", offset=base - kaddr)
@@ -98,7 +99,117 @@ def handler(payload):
     def bee_encrypt(hs, img, base):
         return BeeNxp([bhdr(h) for h in hs], img, base).export_image()
 
+    # ---- history scenarios: second export of one object / export after a change vs a fresh object -------------------
+    def step(fn):
+        """bytes of a step, or a marker naming the exception class (both sides of a comparison may legitimately fail)"""
+        try:
+            r = fn()
+            return bytes(r) if r is not None else b""
+        except Exception as ex:  # noqa
+            return ("ERR:" + type(ex).__name__).encode()
+
+    ZERO = [bytes(16), bytes(8), 0, 0, 0, bytes(4), b""]
+
+    def leafs(bi):
+        """every node of a BinaryImage tree: name, absolute address, own binary (the gaps are not materialised: an
+        export() of a tree placed at a flash address would allocate the whole address range)"""
+        out = f"[{bi.name}@{bi.absolute_address:#x}:".encode() + (bytes(bi.binary) if bi.binary else b"") + b"]"
+        for sub in bi.sub_images:
+            out += leafs(sub)
+        return out
+
+    def otfad_tree(img, base, table):
+        binaries = BinaryImage("enc", offset=base - table)
+        binaries.add_image(BinaryImage("blob0", offset=0, binary=img))
+        return binaries
+
+    def hist_otfad_nxp(family, kek, mask, align, blobsA, imgA, baseA, swap, blobsB, imgB, baseB):
+        m, a = (None if mask < 0 else mask), (None if align < 0 else align)
+        mk = lambda bl, img, base: OtfadNxp(family, kek, table_address=0, key_blobs=[kblob(b) for b in bl],
+                                            key_scramble_mask=m, key_scramble_align=a, binaries=otfad_tree(img, base, 0))
+        ops = [("export_image", lambda o: o.export_image(swap_bytes=bool(swap), join_sub_images=False).sub_images[0].binary),
+               ("export_image.joined", lambda o: leafs(o.export_image(swap_bytes=bool(swap)))),
+               ("binary_image", lambda o: leafs(o.binary_image())),
+               ("encrypt_key_blobs", lambda o: o.encrypt_key_blobs(o.kek, o.key_scramble_mask, o.key_scramble_align, o.keyblob_byte_swap_cnt)),
+               ("get_key_blobs", lambda o: o.get_key_blobs())]
+        o = mk(blobsA, imgA, baseA)
+        first = [step(lambda f=f: f(o)) for _, f in ops]
+        second = [step(lambda f=f: f(o)) for _, f in ops]
+        out = [[0, "OtfadNxp." + n, x, y] for (n, _), x, y in zip(ops, first, second)]
+        # change: every key blob replaced through __setitem__, new data blob tree
+        newb = list(blobsB) + [ZERO] * max(0, len(o) - len(blobsB))
+        for i in range(len(o)):
+            o[i] = kblob(newb[i])
+        for b in newb[len(o):]:
+            o.add_key_blob(kblob(b))
+        o.binaries = otfad_tree(imgB, baseB, 0)
+        fresh = mk(newb, imgB, baseB)
+        out += [[1, "OtfadNxp." + n, step(lambda f=f: f(o)), step(lambda f=f: f(fresh))] for n, f in ops]
+        return out
+
+    def hist_otfad(blobsA, imgA, baseA, swap, blobsB, imgB, baseB):
+        o = Otfad()
+        for b in blobsA:
+            o.add_key_blob(kblob(b))
+        e1 = step(lambda: o.encrypt_image(imgA, baseA, bool(swap)))
+        e2 = step(lambda: o.encrypt_image(imgB, baseB, bool(swap)))
+        e3 = step(lambda: o.encrypt_image(imgA, baseA, bool(swap)))
+        f = Otfad()
+        for b in blobsA:
+            f.add_key_blob(kblob(b))
+        out = [[0, "Otfad.encrypt_image(after another image/base)", e1, e3],
+               [1, "Otfad.encrypt_image(second image/base)", e2, step(lambda: f.encrypt_image(imgB, baseB, bool(swap)))]]
+        for b in blobsB:
+            o.add_key_blob(kblob(b))
+        g = Otfad()
+        for b in list(blobsA) + list(blobsB):
+            g.add_key_blob(kblob(b))
+        out.append([1, "Otfad.encrypt_image(after add_key_blob)", step(lambda: o.encrypt_image(imgB, baseB, bool(swap))),
+                    step(lambda: g.encrypt_image(imgB, baseB, bool(swap)))])
+        out.append([1, "Otfad.encrypt_key_blobs(after add_key_blob)", step(lambda: o.encrypt_key_blobs(bytes(range(16)))),
+                    step(lambda: g.encrypt_key_blobs(bytes(range(16))))])
+        return out
+
+    def hist_iee(family, blobsA, imgA, baseA, blobsB, imgB, baseB):
+        ops = [("export_image", lambda o: o.export_image().sub_images[0].binary),
+               ("export_key_blobs", lambda o: o.export_key_blobs()),
+               ("get_key_blobs", lambda o: o.get_key_blobs()),
+               ("binary_image", lambda o: leafs(o.binary_image()))]
+        o = iee_obj(blobsA, imgA, baseA, family=family)
+        first = [step(lambda f=f: f(o)) for _, f in ops]
+        second = [step(lambda f=f: f(o)) for _, f in ops]
+        out = [[0, "IeeNxp." + n, x, y] for (n, _), x, y in zip(ops, first, second)]
+        newb = list(blobsB[:1]) + list(blobsA[1:]) + list(blobsB[1:2])
+        o[0] = iblob(newb[0])
+        for b in newb[len(blobsA):]:
+            o.add_key_blob(iblob(b))
+        tree = BinaryImage("enc", offset=baseB)
+        tree.add_image(BinaryImage("blob0", offset=0, binary=imgB))
+        o.binaries = tree
+        fresh = iee_obj(newb, imgB, baseB, family=family)
+        out += [[1, "IeeNxp." + n, step(lambda f=f: f(o)), step(lambda f=f: f(fresh))] for n, f in ops]
+        return out
+
+    def hist_bee(hsA, imgA, baseA, imgB, baseB, extra_fac):
+        ops = [("export_image", lambda o: o.export_image()),
+               ("export_headers", lambda o: b"|".join((h or b"-") for h in o.export_headers()))]
+        o = BeeNxp([bhdr(h) for h in hsA], imgA, baseA)
+        first = [step(lambda f=f: f(o)) for _, f in ops]
+        second = [step(lambda f=f: f(o)) for _, f in ops]
+        out = [[0, "BeeNxp." + n, x, y] for (n, _), x, y in zip(ops, first, second)]
+        o.input_image, o.base_address = imgB, baseB
+        hsB = [None if not h else list(h) for h in hsA]
+        for i, h in enumerate(hsB):
+            if h and len(h[3]) < 4:
+                hsB[i][3] = list(h[3]) + [extra_fac]
+                o.headers[i].add_fac(BeeFacRegion(*extra_fac))
+                break
+        fresh = BeeNxp([bhdr(h) for h in hsB], imgB, baseB)
+        out += [[1, "BeeNxp." + n, step(lambda f=f: f(o)), step(lambda f=f: f(fresh))] for n, f in ops]
+        return out
+
     F = {
+        30: hist_otfad_nxp, 31: hist_otfad, 32: hist_iee, 33: hist_bee,
         1: lambda blobs, img, base, swap, nxp: otfad_encrypt(blobs, img, base, swap, nxp),
         2: lambda b: kblob(b).plain_data(),
         3: lambda b, kek, cnt: kblob(b).export(kek, byte_swap_cnt=cnt),
